@@ -454,7 +454,7 @@ func (g *Gen) applyContract(fr *Frame, st *State, site ssa.Instruction, fc *Func
 	penv.vars = rvars
 	penv.old = pre
 	penv.st = st
-	for _, en := range fc.Ensures {
+	for _, en := range append(append([]*Clause{}, fc.Ensures...), fc.Defines...) {
 		v, err := g.evalBool(en.Expr, &penv)
 		if err != nil {
 			g.contractError(en, fmt.Errorf("at %s: %v", siteName, err))
